@@ -140,6 +140,19 @@ extra3 = {
  "C17": " Datetimes in a format of the session as ORDER BY / PARTITION BY keys of OVER.",
  "C18": " Runs of blanks and non-ASCII blanks in literals of composite expressions.",
 }
+# round 13 (second half) and round 14
+extra4 = {
+ "C02": " Created tables whose extension is written in upper / mixed case; fixed-length files whose positions are found automatically, and fixed-length files whose columns are added, dropped and renamed (the committed file must read back as the table the altering process saw).",
+ "C03": " LATERAL joins over a left side without records (fields of both sides, aggregates, as the padded side of an outer join).",
+ "C08": " A table read before under import attributes of its own; nine table layouts (fixed-length with found / given / single-line positions, TSV, CRLF CSV, semicolon CSV, LTSV, JSON, JSON Lines) x seventeen failing statements, each transaction compared byte by byte with a control transaction that never ran the failing statement.",
+ "C10": " Write-protected tables; tables with a second hard link.",
+ "C11": " Procedures over a symbolically linked table (the link target's directory is part of the snapshot).",
+ "C12": " Partition keys that are one value object in neighbouring records; prepared statements whose placeholders are evaluated by parallel workers.",
+ "C13": " Prepared statements whose placeholders are evaluated by parallel workers.",
+ "C19": " A step watchdog of one minute per program / loader input names the program that never ends; after four hangs a run stops restarting hung workers.",
+}
+for k, add in extra4.items():
+    extra3[k] = extra3.get(k, "") + add
 for k, add in extra3.items():
     extra2[k] = extra2.get(k, "") + add
 for k, add in extra2.items():
